@@ -25,6 +25,7 @@ import (
 	"github.com/apache/skywalking-banyandb/api/common"
 	databasev1 "github.com/apache/skywalking-banyandb/api/proto/banyandb/database/v1"
 	modelv1 "github.com/apache/skywalking-banyandb/api/proto/banyandb/model/v1"
+	"github.com/apache/skywalking-banyandb/pkg/convert"
 	"github.com/apache/skywalking-banyandb/pkg/index"
 	"github.com/apache/skywalking-banyandb/pkg/index/posting"
 	"github.com/apache/skywalking-banyandb/pkg/query/logical"
@@ -188,9 +189,15 @@ func (tef *traceEqFilter) Execute(_ index.GetSearcher, _ common.SeriesID, _ *ind
 
 func (tef *traceEqFilter) ShouldSkip(tagFilters index.FilterOp) (bool, error) {
 	// Use the parsed expression to get the tag value and invoke tagFilters.Eq
+	// The block filters are built from the stored bytes of the tag values (e.g. the 8-byte
+	// ordered encoding of an int), so the literal has to be probed in that form, not as text.
 	if tef.expr != nil {
-		tagValue := tef.expr.String()
-		return !tagFilters.Eq(tef.tagName, tagValue), nil
+		bb := tef.expr.Bytes()
+		if len(bb) != 1 {
+			// null or multi-valued literal: a membership test cannot decide it.
+			return false, nil
+		}
+		return !tagFilters.Eq(tef.tagName, convert.BytesToString(bb[0])), nil
 	}
 	return false, nil
 }
@@ -269,11 +276,12 @@ func (thf *traceHavingFilter) Execute(_ index.GetSearcher, _ common.SeriesID, _ 
 
 func (thf *traceHavingFilter) ShouldSkip(tagFilters index.FilterOp) (bool, error) {
 	// Use the parsed expression to get the tag values and invoke tagFilters.Having
+	// Probe the stored byte form of every element (see traceEqFilter.ShouldSkip).
 	if thf.expr != nil {
-		subExprs := thf.expr.SubExprs()
-		tagValues := make([]string, len(subExprs))
-		for i, subExpr := range subExprs {
-			tagValues[i] = subExpr.String()
+		bb := thf.expr.Bytes()
+		tagValues := make([]string, len(bb))
+		for i := range bb {
+			tagValues[i] = convert.BytesToString(bb[i])
 		}
 		return !tagFilters.Having(thf.tagName, tagValues), nil
 	}
